@@ -425,6 +425,43 @@ pub fn sites(tier: Tier) -> Vec<Site> {
                 }
             }));
     }
+    // ... and large files behind other bytes: counts either side of 100 000 and 2^17 (where a reader may change its
+    // strategy) x read offset {1, 5, 64} x write offset {0, 3}
+    {
+        let big: Vec<FileCase> = vec![
+            build_pth(99_999, 1), build_pth(100_000, 1), build_pth(100_001, 1), build_pth(131_073, 1),
+            build_smx(1, 100_001, 3, 1, 1, b"Aston"), build_smx(1, 3, 100_001, 1, 1, b"Aston"), build_smx(1, 3, 1, 100_001, 1, b"Aston"), build_smx(100_001, 0, 0, 1, 1, b"Aston"),
+        ];
+        let big = Arc::new(big);
+        let n = big.len() as u64 * 6;
+        sites.push(Site::new("stream-position-large", n,
+            "PTH files of 99 999 / 100 000 / 100 001 / 131 073 nodes and SMX files with 100 001 points / triangles / checkpoints / objects read at stream offset {1, 5, 64} and written at output offset {0, 3}: same bytes as at offset 0",
+            move |i, acc| {
+                use std::io::{Seek, SeekFrom, Write};
+                acc.eval();
+                let f = &big[(i / 6) as usize];
+                let r = [1usize, 5, 64][((i % 6) / 2) as usize];
+                let w = [0usize, 3][(i % 2) as usize];
+                let kind = if f.smx { "SMX" } else { "PTH" };
+                let replay = json!({"site": "stream-position-large", "index": i, "file": f.name, "read_offset": r, "write_offset": w});
+                let shifted = guard(|| -> Result<Vec<u8>, String> {
+                    let mut data = vec![0xa5u8; r];
+                    data.extend_from_slice(&f.bytes);
+                    let mut c = Cursor::new(&data[..]);
+                    let _ = c.seek(SeekFrom::Start(r as u64));
+                    let mut out = Cursor::new(Vec::new());
+                    let _ = out.write_all(&vec![0x5au8; w]);
+                    if f.smx { Smx::read(&mut c).map_err(|e| e.to_string().chars().take(100).collect::<String>())?.write(&mut out).map_err(|e| format!("write failed: {e}"))?; }
+                    else { Pth::read(&mut c).map_err(|e| e.to_string().chars().take(100).collect::<String>())?.write(&mut out).map_err(|e| format!("write failed: {e}"))?; }
+                    Ok(out.into_inner()[w..].to_vec())
+                });
+                match shifted {
+                    Err(p) => acc.violate(i, format!("C17|{kind}|stream-position|panic"), format!("{}: {p}", f.name), replay),
+                    Ok(Ok(b)) if b == f.bytes => { acc.class("large-file-position-independent"); acc.nontrivial(); },
+                    Ok(other) => acc.violate(i, format!("C17|{kind}|stream-position|differs-from-offset-0"), format!("{} read at offset {r}, written at offset {w}: {}", f.name, match other { Ok(b) => format!("{} bytes that differ from the file's {}", b.len(), f.bytes.len()), Err(e) => e }), replay),
+                }
+            }));
+    }
     // every truncation point
     {
         let mut cases: Vec<(usize, usize)> = vec![];
